@@ -348,7 +348,7 @@ class Directive:
 TAG_RE = re.compile(r"//:\s*([A-Za-z0-9_ ,]+)\s*$")
 
 
-def weave_fn(text, directives, canary=False):
+def weave_fn(text, directives, canary=False, findings=False):
     """returns (new_text, segs); see line_origins"""
     sh = FnShape(text)
     toks = sh.toks
@@ -373,6 +373,18 @@ def weave_fn(text, directives, canary=False):
         edits.append((toks[last].end, toks[last].end, ")"))
     loops = sh.loops()
     closures = sh.closures()
+    # `#finding-<kind>` directives carry obligations of recorded known findings: they are woven only in the separate
+    # findings pass, so that the main pass shows what is discharged without them
+    act = []
+    for d in directives:
+        if d.kind.startswith("finding-"):
+            if findings:
+                d2 = Directive(d.kind[len("finding-"):], d.arg, d.lineno)
+                d2.payload = d.payload
+                act.append(d2)
+        else:
+            act.append(d)
+    directives = act
     for d in directives:
         if d.kind == "ret":
             continue
